@@ -341,8 +341,11 @@ PROVENANCE_OBS = ["X instanceof Array", "X instanceof Object", "X instanceof Err
 
 def provenance_cases():
     out = []
+    linked = PRODUCERS[:PRODUCERS.index("/a/")]          # regexes, typed arrays, buffers, functions, primitives, arguments: no prototype object (documented)
     for pr in PRODUCERS:
         for o in PROVENANCE_OBS:
+            if ("viaProto" in o or "getPrototypeOf" in o) and (pr not in linked or "arguments })" in pr and "slice" not in pr):
+                continue
             src = "var r; try { r = (function () { var X = %s; return %s })() } catch (e) { r = 'throw:' + e.name } r" % (pr, o.replace("X", "X"))
             out.append(("V|" + src, {"src": src}))
     return out
